@@ -494,6 +494,8 @@ class World(object):
             nt = self.next_timer()
             self.reactor.rightNow = nt
             return [self._restart(ev, snap)]
+        if k == "mark":
+            return []           # pseudo-event: end of a seeded prefix (bounds that count events restart here)
         if k == "choice":
             # sets the rank random.choice will use from now on (part of the allocate label)
             self.choice_rank = ev[1]
